@@ -241,9 +241,9 @@ theorem c07_lookupR_nest_baseFields_none (S : StrFns) (b : Bool) (n : String) :
 
 /-- the `"<n>._mapper"` entry of the base mapper is the own aggregate of the class nested under `n` -/
 theorem c07_lookupR_nest_baseFields (S : StrFns) (b : Bool) (n : String) (o : Bool) (sh : Shape)
-    (own : List Mapper) (fs' : List Fld) :
+    (own : CInfo) (fs' : List Fld) :
     ∀ fs : List Fld, nodupB (fs.map Fld.name) = true → Fld.nested n o sh own fs' ∈ fs →
-      lookupR (.nest n) (baseFields S b fs) = some (.sub (foldAdd S b own (baseFields S b fs')))
+      lookupR (.nest n) (baseFields S b fs) = some (.sub (foldAdd S b (own.lst b) (baseFields S b fs')))
   | [], _, h => by cases h
   | fl :: rest, hn, h => by
     simp only [List.map_cons] at hn
@@ -281,8 +281,8 @@ theorem c07_base_agrees_f (S : StrFns) :
       List.any_eq_true.mpr ⟨_, hm, by simp [Fld.name]⟩
     refine ⟨by simp [this], _, c07_lookupR_nest_baseFields S true n o sh own fs full hn hm, ?_⟩
     have hb := c07_base_agrees_fs S fs fs (fun g hg => hg) hw.1 hw.2
-    have := c07_agrees_foldAdd S fs own _ [] hb
-    simpa [nestedList] using this
+    have := c07_agrees_foldAdd S fs own.ser _ [] hb
+    simpa [nestedList, CInfo.lst] using this
 end
 
 /-- **The serializer's aggregate is the pointwise specification at every depth**: for every class tree
